@@ -64,6 +64,8 @@ type step struct {
 	Res     string     `json:"res,omitempty"`
 	Via     string     `json:"via,omitempty"`
 	Enc     string     `json:"enc,omitempty"` // Accept: encoding of the identities inside the record
+	K       int        `json:"k,omitempty"`   // BuildTampered: place of the refusable record
+	M       int        `json:"m,omitempty"`   // BuildTampered: last genuine record of the continuation
 }
 
 type behaviour struct {
@@ -556,6 +558,8 @@ func (x *runner) doStep(s *step) {
 		x.tamper(x.reps[s.R], s)
 	case "AddBatchTail":
 		x.batchTail(x.reps[s.R], s)
+	case "BuildTampered":
+		x.buildTampered(x.reps[s.R], s)
 	default:
 		panic("unknown step " + s.Act)
 	}
@@ -727,6 +731,10 @@ func (x *runner) variantsAt(r *replica, s *step, at int) ([]variant, error) {
 		out = append(out, variant{"other-cid", &consensusproto.RawRecordWithId{Id: alt, Payload: base.Payload}})
 		out = append(out, variant{"unknown-cid", &consensusproto.RawRecordWithId{Id: w.unknownId(3), Payload: base.Payload}})
 		out = append(out, variant{"not-a-cid", &consensusproto.RawRecordWithId{Id: base.Id + "x", Payload: base.Payload}})
+		// other spellings of the same digest: the id is a string, only the canonical one names the record
+		for _, al := range idAliases(base.Id) {
+			out = append(out, variant{"alias-" + al.name, &consensusproto.RawRecordWithId{Id: al.id, Payload: base.Payload}})
+		}
 		if at+1 < len(w.log) {
 			out = append(out, variant{"later-records-id", &consensusproto.RawRecordWithId{Id: w.log[at+1].Id, Payload: base.Payload}})
 		}
@@ -788,6 +796,13 @@ func (x *runner) variantsAt(r *replica, s *step, at int) ([]variant, error) {
 			return nil, fmt.Errorf("author of record %d unknown", at+1)
 		}
 		out = append(out, variant{"re-signed", w.sign(signedBy(rec, w.keys[author].SignKey))})
+		if at >= 1 { // the head named by another spelling of its id
+			for _, al := range idAliases(w.log[at-1].Id)[:1] {
+				rec2 := decodeRecord(decodeRaw(next()))
+				rec2.PrevId = al.id
+				out = append(out, variant{"head-alias-" + al.name, w.sign(signedBy(rec2, w.keys[author].SignKey))})
+			}
+		}
 	case "gap", "dup":
 		out = append(out, variant{"accepted-record", w.log[s.Other-1]})
 	case "unaccepted":
@@ -960,6 +975,90 @@ func (x *runner) batchTail(r *replica, s *step) {
 		return
 	}
 	x.after(r, s)
+}
+
+var chainKinds = map[string]bool{"byte": true, "id": true, "prevId": true, "authorSig": true, "acceptorSig": true, "nonHeadPrev": true}
+
+// BuildTampered: the records log[1..k-1], a refusable record in place k and (for the kinds made from
+// record k) the genuine records k+1..m reach a list through the BUILD entry points instead of
+// AddRawRecord: NewInMemoryStorage(records) + BuildAclListWithIdentity (what the joining client,
+// the acl waiter and the node-side acl object do with records served by the network) and, for
+// replicas on any-store, a database whose rows hold those bytes. The build must fail, or at least
+// yield a list that stops before the refusable record.
+func (x *runner) buildTampered(r *replica, s *step) {
+	w := x.w
+	at := s.K - 1
+	if s.K < 1 || s.K > len(w.log)+1 || (chainKinds[s.Kind] && (s.M < s.K || s.M > len(w.log))) {
+		x.drift("BuildTampered(k=%d, m=%d) is not enabled with %d records", s.K, s.M, len(w.log))
+		return
+	}
+	vs, err := x.variantsAt(r, s, at)
+	if err != nil {
+		if x.free {
+			return
+		}
+		x.drift("refusable record %s for place %d cannot be rendered: %v", s.Kind, s.K, err)
+		return
+	}
+	if len(vs) > 6 {
+		keep := vs[:0:0]
+		for i := 0; i < 6; i++ {
+			keep = append(keep, vs[(x.stepNo+i*len(vs)/6)%len(vs)])
+		}
+		vs = keep
+	}
+	judge := func(l list.AclList, err error, v variant, form string) {
+		if err != nil {
+			return
+		}
+		vn := strings.SplitN(v.name, "@", 2)[0]
+		if n := len(l.Records()); n >= s.K {
+			x.violate("refusable-record-accepted/"+s.Kind+"/"+vn+"/build-"+form+"/"+r.cfg.Mode,
+				"a list (%s, %s) was built from %s records that hold a refusable record (%s, %s) in place %d of %d: %d records, head %s",
+				r.cfg.Mode, r.cfg.Ident, form, s.Kind, v.name, s.K, n, n, l.Head().Id)
+			x.stop = true
+		}
+	}
+	for _, v := range vs {
+		recs := cloneRecs(w.log[:at])
+		recs = append(recs, &consensusproto.RawRecordWithId{Id: v.rec.Id, Payload: append([]byte(nil), v.rec.Payload...)})
+		if chainKinds[s.Kind] && s.M > s.K {
+			recs = append(recs, cloneRecs(w.log[s.K:s.M])...)
+		}
+		seen := map[string]bool{}
+		for i, rc := range recs { // a transplanted id may name a record of the continuation: stop there
+			if seen[rc.Id] {
+				recs = recs[:i]
+				break
+			}
+			seen[rc.Id] = true
+		}
+		if len(recs) < s.K {
+			continue
+		}
+		if s.K == 1 && recs[0].Id != w.log[0].Id {
+			continue // another root id is another list, not a refusable record of this one
+		}
+		x.rep.Case("build-tampered/served/" + s.Kind + "/" + strings.SplitN(v.name, "@", 2)[0] + "/" + r.cfg.Mode)
+		st, err := list.NewInMemoryStorage(recs[0].Id, cloneRecs(recs))
+		mustNoErr(err, "in-memory storage")
+		l, err := list.BuildAclListWithIdentity(w.keys[r.cfg.Ident], st, w.verifier(r.cfg.Mode))
+		judge(l, err, v, "served")
+		if r.cfg.Storage == "anystore" && !x.stop {
+			x.rep.Case("build-tampered/stored/" + s.Kind + "/" + r.cfg.Mode)
+			dir := filepath.Join(x.scratch, fmt.Sprintf("tam-%d", replicaSeq.Add(1)))
+			db, ast, err := w.newAnyStore(dir, recs, nil)
+			mustNoErr(err, "tampered any-store storage")
+			l, err := list.BuildAclListWithIdentity(w.keys[r.cfg.Ident], ast, w.verifier(r.cfg.Mode))
+			judge(l, err, v, "stored")
+			_ = db.Close()
+			_ = os.RemoveAll(dir)
+		}
+		if x.stop {
+			return
+		}
+	}
+	x.trace.buildTampered(x, s, r)
 }
 
 // ---------------------------------------------------------------------------------------------
